@@ -184,7 +184,9 @@ func (t *TClient) onRecv(s *Sess, m wamp.Message) {
 		if prog {
 			return // answer only the last chunk
 		}
-		t.answer(iv, x)
+		// like a real client: the handler runs beside the reader, which must
+		// never be blocked by a send
+		simrt.Go("op:handler:"+t.Name, func() { t.answer(iv, x) })
 	}
 }
 
